@@ -795,9 +795,9 @@ pub fn main(ctx: &Ctx) {
     run_committed_replays(ctx, &Restore);
     run_committed_replays(ctx, &TamperP);
     run_committed_replays(ctx, &Retention);
-    run_pbt(ctx, &Restore, ctx.tier.pick(600, 15_000));
+    run_pbt(ctx, &Restore, ctx.tier.pick(1_500, 30_000));
     run_tamper_exhaustive(ctx);
-    run_pbt(ctx, &Retention, ctx.tier.pick(3_000, 60_000));
+    run_pbt(ctx, &Retention, ctx.tier.pick(20_000, 400_000));
     run_pbt(ctx, &ClearP, ctx.tier.pick(16, 64));
     run_pbt(ctx, &Pitr, ctx.tier.pick(48, 256));
 }
